@@ -16,7 +16,9 @@ from __future__ import annotations
 
 import fractions
 import math as _math
+import os
 import sys
+import time
 
 import z3
 
@@ -1261,7 +1263,9 @@ class Ctx:
         fresh arguments for every path."""
         return self.merged(lambda _i: call(fn, *a, **k))
 
-    def merged(self, thunk, max_paths=256):
+    MERGED_BUDGET_S = float(os.environ.get("PYVC_MERGED_BUDGET_S", "40"))
+
+    def merged(self, thunk, max_paths=256, max_seconds=None):
         """thunk(path_index) -> call() outcome, run on every feasible path from the
         current state; the outcomes are merged into one if-then-else outcome, so
         that a caller written for a single-path function still covers a function
@@ -1273,9 +1277,15 @@ class Ctx:
         work = [[]]
         results, cond_asm, npath = [], [], 0
         overflow = False
+        deadline = time.time() + (max_seconds if max_seconds is not None else self.MERGED_BUDGET_S)
         self.exploring += 1
         try:
             while work:
+                if time.time() > deadline and results:
+                    # a callee that forks on many undecidable conditions: left undecided like a path overflow
+                    overflow = True
+                    max_paths = f"{int(time.time() - deadline + (max_seconds or self.MERGED_BUDGET_S))} s"
+                    break
                 sched = work.pop()
                 self.pc, self.taken, self.schedule, self.worklist = list(base_pc), [], list(sched), work
                 self.fold_depth = 0
@@ -1313,7 +1323,7 @@ class Ctx:
         for x in cond_asm:
             self.assume(x)
         if overflow:
-            return ("split", results + [(z3.BoolVal(True), ("path-budget", f"more than {max_paths} paths"))])
+            return ("split", results + [(z3.BoolVal(True), ("path-budget", f"more than {max_paths} paths / seconds"))])
         if not results:
             raise PathAbort("no feasible path through the merged call")
         if len(results) == 1:
